@@ -62,11 +62,17 @@ func bodyOfLen(L int) (secs2.Item, []byte, bool) {
 		a, b := fill(126), fill(126)
 		v := &e5.Val{FC: e5.List, Kids: []*e5.Val{{FC: e5.Binary, Raw: a}, {FC: e5.Binary, Raw: b}}}
 		return secs2.NewListItem(secs2.NewBinaryItem(a), secs2.NewBinaryItem(b)), e5.Encode(nil, v), true
-	default:
+	case L <= 65538:
 		p := fill(L - 3)
+		return secs2.NewBinaryItem(p), e5.Encode(nil, &e5.Val{FC: e5.Binary, Raw: p}), true
+	default: // three length bytes
+		p := fill(L - 4)
 		return secs2.NewBinaryItem(p), e5.Encode(nil, &e5.Val{FC: e5.Binary, Raw: p}), true
 	}
 }
+
+// maxE4Body: 32767 blocks (15-bit block number) of 244 data bytes.
+const maxE4Body = 244 * 32767
 
 const (
 	outT1 = 100 * time.Millisecond
@@ -95,8 +101,9 @@ func openNode(w *e2.World, n *e2s1.Node) (*peer.E4, error) {
 }
 
 type outStats struct {
-	blocks int
-	msgs   int
+	blocks   int
+	msgs     int
+	oversize string // what the library did with a body over the E4 limit (observed)
 }
 
 func runOutbound(t *testing.T, oc outCase) (fail *failure, st outStats, leak string) {
@@ -144,6 +151,20 @@ func runOutbound(t *testing.T, oc outCase) (fail *failure, st outStats, leak str
 				sendErr = n.C.ForwardDataMessage(context.Background(), dm)
 			})
 			w.Advance(tick)
+			if oc.L > maxE4Body {
+				// one byte more than 32767 blocks can carry: it cannot be numbered 1..N in 15 bits, so no
+				// block of it may appear on the line (what the call returns and what becomes of the
+				// link is not C17's business: observed, not demanded)
+				if pe.BidPending() || len(pe.Pending()) != 0 {
+					bad("out:oversize:on-the-line", "%s: a body of %d bytes (limit %d: 32767 blocks) — the library started to transmit it (call returned=%v err=%v, line %x)", where, oc.L, maxE4Body, call.Done(), sendErr, pe.Pending())
+				}
+				st.oversize = fmt.Sprintf("returned=%v err-nil=%v state=%v", call.Done(), sendErr == nil, n.C.State())
+				if fail != nil {
+					return
+				}
+				st.msgs++
+				continue
+			}
 			if call.Done() {
 				bad("out:send-returned-early", "%s: the send call returned (%v) before any block was acknowledged", where, sendErr)
 				return
